@@ -20,10 +20,10 @@ base=$(cd $sc && go test -vet=off -count=1 ./ipfix/... ./netflow/... ./sflow/...
 basefail=$(cd $sc && go test -vet=off -count=1 ./ipfix/... ./netflow/... ./sflow/... ./packet/... ./reader/... ./mirror/... ./producer/... ./stress/... 2>&1 | grep -c "^FAIL\|^---")
 for d in $demos; do cp $wt/$d $sc/$d; done
 pk=$(for d in $demos; do echo ./$(dirname $d)/; done | sort -u | tr '\n' ' ')
-with=$(cd $sc && timeout 300 go test -vet=off -count=1 $pk 2>&1 | grep -c "^ok")
-withfail=$(cd $sc && timeout 300 go test -vet=off -count=1 $pk 2>&1 | grep -c "^FAIL\|panic:")
+with=$(cd $sc && timeout 300 go test -vet=off -count=1 -run Demo $pk 2>&1 | grep -c "^ok")
+withfail=$(cd $sc && timeout 300 go test -vet=off -count=1 -run Demo $pk 2>&1 | grep -c "^FAIL\|panic:")
 ( cd $sc && git apply -R $out/patch.diff )
-without=$(cd $sc && timeout 300 go test -vet=off -count=1 $pk 2>&1 | grep -c "^FAIL\|panic:")
+without=$(cd $sc && timeout 300 go test -vet=off -count=1 -run Demo $pk 2>&1 | grep -c "^FAIL\|panic:")
 git -C /repo worktree remove --force $sc
 echo "seed $name: build=$build baseline_ok_pkgs=$base baseline_failures=$basefail demo_with_change_failures=$withfail demo_without_change_failures=$without"
 # run the checks against it
